@@ -318,6 +318,34 @@ def run(eng: Engine, ck: Check):
               '(_cleanup_term_map only drops entries whose items were garbage collected)', p is None,
               'the term map keeps the items of the removed directory as long as anything references them (e.g. the returned directory object): '
               'query() still returns files that are no longer shared while get_stats() does not count them', construct=f'{f.qualname} rebuilds term map')
+    # identity of index entries: the term map and query() hold items in (weak) SETS, so two items that denote different files must never
+    # compare equal -- every attribute that get_absolute_path() reads takes part in __eq__ / __hash__
+    si = eng.cls('SharedItem', 'shares/model.py')
+    gap = si.methods.get('get_absolute_path')
+    if gap is None:
+        raise AnalysisError('anchor function vanished: SharedItem.get_absolute_path')
+    ck.visited(gap)
+    ident = {n.attr for n in walk_local(gap.node) if isinstance(n, ast.Attribute) and isinstance(n.value, ast.Name) and n.value.id == 'self'
+             and not isinstance(parent(n), ast.Call) or (isinstance(n, ast.Attribute) and isinstance(n.value, ast.Name) and n.value.id == 'self'
+                                                         and isinstance(parent(n), ast.Call) and parent(n).func is not n)}
+    fields_cmp: dict[str, bool] = {}
+    for st in si.node.body:
+        if isinstance(st, ast.AnnAssign) and isinstance(st.target, ast.Name):
+            cmp_ = True
+            if isinstance(st.value, ast.Call) and call_name(st.value) == 'field':
+                for k_ in ('compare', 'hash'):
+                    if kw(st.value, k_) is not None and const(kw(st.value, k_)) is False:
+                        cmp_ = False
+            fields_cmp[st.target.id] = cmp_
+    deco = [d for d in si.node.decorator_list if call_name(d) == 'dataclass' or unparse(d) == 'dataclass']
+    generated = bool(deco) and not any(m_ in si.methods for m_ in ('__eq__', '__hash__')) and \
+        not (isinstance(deco[0], ast.Call) and kw(deco[0], 'eq') is not None and const(kw(deco[0], 'eq')) is False)
+    not_compared = sorted(a_ for a_ in ident if a_ in fields_cmp and not fields_cmp[a_])
+    ck.ob('R-C07-INDEX', si, si.node, 'two SharedItems that denote different files are never equal: every field read by get_absolute_path() '
+          f'({sorted(ident & set(fields_cmp))}) takes part in the generated __eq__/__hash__ (the index keeps items in sets)',
+          generated and not not_compared and len(ident & set(fields_cmp)) >= 3,
+          f'excluded from comparison: {not_compared}; dataclass-generated eq/hash: {generated} — equal relative paths (and mtimes) in two shared directories '
+          'collapse into one index entry: one of the files is never returned while get_stats() still counts it', construct='SharedItem identity')
     gs_ = eng.func(SHARES, 'SharesManager.get_stats')
     iters = [(n.iter, n.target) for n in walk_local(gs_.node) if isinstance(n, (ast.For, ast.comprehension))]
     dir_vars = {unparse(t) for it, t in iters if unparse(it) == 'self._shared_directories'}
